@@ -19,7 +19,8 @@ def VALS := ["1", "two", "x3", "w4"]
 def FUNS := ["F1", "F2"]
 def BODIES := ["b1", "b2"]
 def ALIASES := ["A1", "A2"]
-def OPTS := ["glob", "unset", "pipefail", "xtrace", "notify", "ignoreeof"]
+def OPTS := ["allexport", "clobber", "errexit", "glob", "hashondefinition", "ignoreeof", "log", "login", "monitor",
+  "notify", "pipefail", "portable", "posixlycorrect", "unset", "verbose", "vi", "xtrace"]
 def DIRS := ["/d1", "/d2", "/d1/s"]
 def MASKS := ["022", "027", "077"]
 def FILES := ["f1", "f2"]
